@@ -440,7 +440,7 @@ impl HasChildren for XmlAttribute {
     }
 
     fn insert_by_id(&self, value: Rc<XmlItem>, id: Option<usize>) -> error::Result<Rc<XmlItem>> {
-        if self.ancestor(value.id()) {
+        if value.id() == self.id() || self.ancestor(value.id()) {
             return Err(error::Error::InvalidHierarchy);
         }
 
@@ -2152,7 +2152,7 @@ impl HasChildren for XmlElement {
     }
 
     fn insert_by_id(&self, value: Rc<XmlItem>, id: Option<usize>) -> error::Result<Rc<XmlItem>> {
-        if self.ancestor(value.id()) {
+        if value.id() == self.id() || self.ancestor(value.id()) {
             return Err(error::Error::InvalidHierarchy);
         }
 
